@@ -8,5 +8,10 @@ CONSTANTS
   CacheCap = 256
 CONSTRAINT HW
 INVARIANT Inv
+INVARIANT MonRetention
+INVARIANT MonPure
+INVARIANT MonIndex
+INVARIANT MonHandover
+INVARIANT MonLive
 POSTCONDITION Accepted
 CHECK_DEADLOCK FALSE
